@@ -34,6 +34,7 @@ type StressParams struct {
 	Extras   bool // stats / histograms / notifications / store snapshots (C17)
 	Delays   bool
 	Porc     bool // also check the recorded history with porcupine
+	Filler   int  // unchecked filler keys per batch (bigger segments => longer deferred sorts and merges)
 }
 
 // wstate is the projection of the content on one writer's keys.
@@ -261,6 +262,10 @@ func runStress(p StressParams, scratch string, idx int) *StressResult {
 					} else {
 						b.Del(wkey(w, o.suffix))
 					}
+				}
+				for f := 0; f < p.Filler; f++ {
+					// descending order so that the batch really needs sorting
+					b.Set([]byte(fmt.Sprintf("w%d/zfill/%06d/%05d", w, pn, p.Filler-f)), []byte("f"))
 				}
 				for c, ops := range child {
 					if ops == nil {
@@ -644,6 +649,7 @@ func runStress(p StressParams, scratch string, idx int) *StressResult {
 	case <-waitCh:
 	case <-time.After(120 * time.Second):
 		close(stopExtras)
+		ewg.Wait()
 		res.Inconc = "watchdog: stress run did not finish in 120s"
 		q, gs := eng.Quiescent(300 * time.Millisecond)
 		if q {
